@@ -3,4 +3,4 @@
 package kubeeventsmanager
 
 // VerifEventsEnabled reads monitor.eventsEnabled.
-func VerifEventsEnabled(m *monitor) bool { return m.eventsEnabled }
+func VerifEventsEnabled(m *monitor) bool { return m.eventsEnabled.Load() }
